@@ -9,6 +9,7 @@ negotiable range 256..65535), body size `s - 8`.
 -/
 import Dblib.Lemmas.ChanTx
 import Dblib.Lemmas.Wire
+import Dblib.Props.C12.Transmit  -- one Write per packet: concurrent channels do not tear packets (c12_tx_wire_parses)
 import Dblib.Props.C03.Duplex  -- arriving packets do not touch the transmit state (c01_duplex_transmit)
 
 namespace Dblib.Props.C01
